@@ -367,6 +367,7 @@ def r5_whitespace(ctx):
         if b is not None:
             vs = valueset(b)
             ctx.ob("R5", "is_whitespace", vs == {9, 10, 13, 32}, "XML whitespace = {tab, LF, CR, space}: %s" % sorted(vs), config=cfg)
+        one_whitespace_notion(ctx, "R5", F, cfg)
         nl = ctx.body(F, "utils::name_len", "R5")
         if nl is not None:
             cs = [callee_of(t)[0] for _, t in nl.calls()]
